@@ -21,6 +21,7 @@ stats = []
 @given(e1.cases(dict(items), e1.BIASES[prop]))
 def test(case):
     t0 = time.time()
+    json.dump(case, open('/var/tmp/last_case.json','w'))
     sim = e1.run_case(case, scratch)
     t1 = time.time()
     labels = e1.labels_of(sim, case)
